@@ -109,7 +109,7 @@ func (p *mPara) wrap(lw *shaping.LineWrapper) (res *wResult, raw [][]shaping.Out
 }
 
 type lawSet struct {
-	c02, c03, c04 bool
+	c02, c03, c04, c08 bool
 }
 
 func (p *mPara) sig() string {
@@ -123,7 +123,9 @@ func checkWrap(r *mc.Reporter, p *mPara, lw *shaping.LineWrapper, laws lawSet) (
 	var res *wResult
 	var raw [][]shaping.Output
 	prop := "C02"
-	if laws.c03 {
+	if laws.c08 {
+		prop = "C08"
+	} else if laws.c03 {
 		prop = "C03"
 	} else if laws.c04 {
 		prop = "C04"
@@ -190,6 +192,9 @@ func checkWrap(r *mc.Reporter, p *mPara, lw *shaping.LineWrapper, laws lawSet) (
 
 	if laws.c02 {
 		p.lawsC02(r, res)
+	}
+	if laws.c08 && !vertical {
+		p.lawsC08(r, res)
 	}
 	// Domain rule: with a negative letter spacing the measured width is not monotone in the line
 	// length (a longer candidate can be narrower than a shorter one), so "fits"/"greedy" are not
@@ -647,6 +652,81 @@ func (p *mPara) lawsC04(r *mc.Reporter, res *wResult) {
 		if hi.Ceil() <= width {
 			r.Violation("C04:not-greedy", c,
 				fmt.Sprintf("line %d [%d,%d) could have been extended to the next permitted break %d: measure %d <= width %d", li, l.start, e, nx, hi.Ceil(), width))
+		}
+	}
+}
+
+// ---------------------------------------------------------------------------
+// C08 on synthetic direction vectors. The wrapper only sees each run's direction; every direction
+// vector is realisable by a paragraph whose runs sit exactly at the paragraph level (same direction)
+// or one above (opposite direction), for which rule L2 gives the order computed here. A correct
+// implementation cannot tell realisations apart, so it must produce this order.
+
+func (p *mPara) lawsC08(r *mc.Reporter, res *wResult) {
+	c := p.c
+	pdir := wDirs[c.PDir]
+	pl := 0
+	if pdir.Progression() == di.TowardTopLeft {
+		pl = 1
+	}
+	rtlPara := pl == 1
+	for li := range res.lines {
+		l := &res.lines[li]
+		all := append([]shaping.Output(nil), l.runs...)
+		if l.truncator != nil {
+			all = append(all, *l.truncator)
+		}
+		m := len(all)
+		lv := make([]int, m)
+		for i := range all {
+			lv[i] = pl
+			if all[i].Direction.Progression() != pdir.Progression() {
+				lv[i] = pl + 1
+			}
+		}
+		want := l2Order(lv)
+		var got []int
+		ok := true
+		for i := range all {
+			got = append(got, int(all[i].VisualIndex))
+			if got[i] != want[i] {
+				ok = false
+			}
+		}
+		if !ok {
+			key := "C08:order:synthetic"
+			if l.truncator != nil {
+				key = "C08:order:synthetic:with-truncator"
+			}
+			r.Violation(key, c, fmt.Sprintf("line %d: run directions give levels %v (paragraph level %d): VisualIndex=%v, rule L2 gives %v", li, lv, pl, got, want))
+			continue
+		}
+		if c.NoTrim || len(l.runs) == 0 {
+			continue
+		}
+		// trimming hits the visually last text glyph in paragraph direction and nothing else
+		last := -1
+		for i := range l.runs {
+			if last < 0 || (!rtlPara && want[i] > want[last]) || (rtlPara && want[i] < want[last]) {
+				last = i
+			}
+		}
+		fastPath := len(res.lines) == 1 && len(p.runs) == 1 && c.Driver == 0
+		for i := range l.runs {
+			gs := l.runs[i].Glyphs
+			for gi := range gs {
+				g := &gs[gi]
+				mg := &p.glyphs[int(g.Mask)-1]
+				endPos := (!rtlPara && gi == len(gs)-1) || (rtlPara && gi == 0)
+				isEnd := i == last && endPos
+				cur := p.absAdv(g, false)
+				if isEnd && g.Width == 0 && cur != 0 && !fastPath {
+					r.Violation("C08:trim-missed:synthetic", c, fmt.Sprintf("line %d: the visually last glyph in paragraph direction (id %d) is whitespace but kept its advance", li, g.Mask))
+				}
+				if !isEnd && cur != mg.adv && cur != mg.adv-mg.startSp {
+					r.Violation("C08:trim-wrong-glyph:synthetic", c, fmt.Sprintf("line %d: glyph id %d had its advance changed (%d -> %d) but is not the visually last glyph in paragraph direction", li, g.Mask, mg.adv, cur))
+				}
+			}
 		}
 	}
 }
